@@ -34,7 +34,7 @@ class Knobs:
                 self.types.add("int")
         self.no_clock = no_clock
         self.depth = r.choice((0, 1, 2, 2, 3, 4))
-        self.fanout = r.choice((1, 2, 3, 4))
+        self.fanout = r.choice((1, 2, 3, 4, 4, 8))
         self.p_beyond = r.choice((0.0, 0.1, 0.5))
         self.p_value = r.choice((0.0, 0.15, 0.5))
         self.p_constraint = r.choice((0.2, 0.5, 0.9))
@@ -394,7 +394,7 @@ def _gen_list(r, k, depth):
     return s, w
 
 
-KEY_POOL = ("id", "name", "a", "b", "c", "key", "value", "items", "x y", "")
+KEY_POOL = ("id", "name", "a", "b", "c", "key", "value", "items", "x y", "", "d", "e", "f", "g", "created_at", "Z")
 
 
 def _gen_dict(r, k, depth, include_all=False):
